@@ -88,9 +88,33 @@ func c11World(t *testing.T, r *simcore.Run) any {
 	var lastReq *reqInfo
 	var lastReply *simnet.Datagram
 	replyCookies := 0
+	// The client's own kernel transmit timestamp goes missing (it falls back to a clock reading
+	// a poll's millisecond later) while the reply is back within that millisecond, and arrives
+	// twice: the exchange authenticates and then fails on its timestamps - what it may have
+	// stored of the reply's cookies it may store once.
+	txMissDup := make([]bool, nattempts)
+	if tp.Bool(1, 3, "txmissdup-run") {
+		for i := range txMissDup {
+			txMissDup[i] = !dropReq[i] && !dropResp[i] && tp.Bool(1, 6, "txmissdup")
+		}
+	}
+	missPlan := net.Plan
+	missPlan.TxStampMissing = 1000
+	net.PlanFor = func(d *simnet.Datagram, at *simnet.UDPConn) *simnet.FaultPlan {
+		if cur >= 0 && txMissDup[cur] && tr.isRequest(d) {
+			return &missPlan
+		}
+		return nil
+	}
 	net.Intercept = func(d *simnet.Datagram) ([]simnet.Route, bool) {
 		if cur < 0 {
 			return nil, false
+		}
+		if txMissDup[cur] && tr.lastHopToClient(d) {
+			pastResponses = append(pastResponses, append([]byte(nil), d.Payload...))
+			dup := net.NewDatagram(d.Src, d.Dst, append([]byte(nil), d.Payload...), "reply duplicated")
+			r.Fault("client-tx-stamp-missing+reply-duplicated")
+			return []simnet.Route{{D: d, Delay: 40 * time.Microsecond}, {D: dup, Delay: 40 * time.Microsecond}}, true
 		}
 		if tr.isRequest(d) && dropReq[cur] {
 			r.Fault("request-lost")
@@ -332,6 +356,15 @@ func c11World(t *testing.T, r *simcore.Run) any {
 				}
 			} else {
 				failed++
+				if after > 8 {
+					r.Fail("C11", "pool/over-eight", "%s: pool holds %d cookies after a failed exchange", line, after)
+					return
+				}
+				if txMissDup[i] {
+					// failed on its timestamps (transmit time read after the reply had arrived)
+					r.Probe("failed-on-timestamps-with-duplicated-reply")
+					continue
+				}
 				if stale && !dropReq[i] && !dropResp[i] {
 					// bounded liveness: eight worthless cookies at most, then a key exchange
 					cleanSinceRestart++
